@@ -62,9 +62,12 @@ def handleC14 (quirks : List String) (op : String) (args : List String) : String
   let q : ValQuirks :=
     { numEqAsymmetric := quirks.contains "numEqAsymmetric"
       convCmpOneWay := quirks.contains "convCmpOneWay"
+      strEqSameQuotesRaw := quirks.contains "strEqSameQuotesRaw"
+      cmpOldUnitRules := quirks.contains "cmpOldUnitRules"
       mapEqOrdered := quirks.contains "mapEqOrdered"
       mapEqOneSided := quirks.contains "mapEqOneSided"
-      argListNeverEqual := quirks.contains "argListNeverEqual" }
+      argListNeverEqual := quirks.contains "argListNeverEqual"
+      ordCalcFlag := quirks.contains "ordCalcFlag" }
   let lq : LogicQuirks :=
     { notOnlyOnBool := quirks.contains "notOnlyOnBool"
       notMapUnevaluated := quirks.contains "notMapUnevaluated"
